@@ -945,6 +945,8 @@ struct Stats {
 
 struct Opts {
     eq_on_mutants: bool,
+    /// development aid: false switches the equality comparisons off (to see what sensitivity alone catches)
+    equality: bool,
 }
 
 fn tclass(w: &World) -> &'static str {
@@ -1007,6 +1009,14 @@ fn serialise(tx: &Transaction) -> Result<Vec<u8>, String> {
         Ok(Err(e)) => Err(format!("write: {e}")),
         Ok(Ok(b)) => Ok(b),
     }
+}
+
+/// The bytes around the first difference of two values, for messages.
+fn window(a: &[u8], b: &[u8]) -> (String, String) {
+    let d = a.iter().zip(b.iter()).position(|(x, y)| x != y).unwrap_or(a.len().min(b.len()));
+    let lo = d.saturating_sub(4);
+    let show = |v: &[u8]| format!("{}{}@{}/{}", if lo > 0 { ".." } else { "" }, hx(&v[lo.min(v.len())..(lo + 12).min(v.len())]), lo, v.len());
+    (show(a), show(b))
 }
 
 fn pred_has(leaves: &Value, f: &str, i: usize) -> bool {
@@ -1094,7 +1104,7 @@ fn process_case(spec: &Spec, g: &TxGen, seed: u64, c: &Value, opts: &Opts, rep: 
     let only = c.get("only").filter(|o| o.is_object());
 
     // ---- (a) equality with the evaluation of the specification's trees
-    {
+    if opts.equality {
         let mut ev = Evaluator::new(spec, &w);
         let none = SigCase::shielded();
         let cmp = |what: &str, code: &D32, exp: Result<[u8; 32], String>, rep: &mut Report, n: &mut usize| match (code, exp) {
@@ -1288,7 +1298,7 @@ fn process_case(spec: &Spec, g: &TxGen, seed: u64, c: &Value, opts: &Opts, rep: 
                     rep.bad(json!({"kind": "sensitivity", "ctx": ctx, "only": {"f": f, "i": i}, "row": key, "digest": label,
                         "what": format!("{ver}: changing only {f}[{}] ({} -> {}) leaves {label} {}; the specification says it {}",
                             if i == 0 { "-".to_string() } else { (i - 1).to_string() },
-                            hx(&dump0[&(f.clone(), i)][..dump0[&(f.clone(), i)].len().min(16)]), hx(&dump1[&(f.clone(), i)][..dump1[&(f.clone(), i)].len().min(16)]),
+                            window(&dump0[&(f.clone(), i)], &dump1[&(f.clone(), i)]).0, window(&dump0[&(f.clone(), i)], &dump1[&(f.clone(), i)]).1,
                             if changed { "changed" } else { "unchanged" }, if e { "changes" } else { "is unchanged" })}));
                 }
             };
@@ -1302,7 +1312,7 @@ fn process_case(spec: &Spec, g: &TxGen, seed: u64, c: &Value, opts: &Opts, rep: 
             for (k, cs) in cases.iter().enumerate() {
                 check("sig", Some(cs), &d0.sigs[k], &d1.sigs[k], rep, st);
             }
-            if opts.eq_on_mutants {
+            if opts.eq_on_mutants && opts.equality {
                 let mut ev = Evaluator::new(spec, &w2);
                 let none = SigCase::shielded();
                 let mut digs: Vec<(String, &D32, &Value, &SigCase)> = vec![("txid".into(), &d1.txid, &vs.txid, &none)];
@@ -1457,7 +1467,7 @@ fn main() {
     let seed = input.get("seed").and_then(|s| s.as_u64()).unwrap_or_else(seed_from_env);
     quiet_panics();
     let spec = load_spec(&input["spec"]);
-    let opts = Opts { eq_on_mutants: input["opts"]["eq_on_mutants"].as_bool().unwrap_or(false) };
+    let opts = Opts { eq_on_mutants: input["opts"]["eq_on_mutants"].as_bool().unwrap_or(false), equality: input["opts"]["equality"].as_bool().unwrap_or(true) };
     let g = TxGen::new(seed);
     let mut rep = Report { mismatches: vec![], count: 0, harness_errors: vec![] };
     let mut st = Stats::default();
